@@ -257,20 +257,79 @@ def path_relations(s):
     return out
 
 
-# ------------------------------------------------------------------------------------------------ C16.5
-def check_recency(rep, prog):
-    # sorting premise: signatures compare by creation time; insertion bisects
-    lt = prog.method('pgpy.pgp', 'PGPSignature', '__lt__')
-    a, b = lt.params[0], lt.params[1]
-    for s in Interp(prog, Scenario(inline=noinline)).run(lt):
-        r = _strip(render(s.ret))
-        good = ('%s.created < %s.created' % (a, b), '%s.created > %s.created' % (b, a), 'operator.lt(%s.created, %s.created)' % (a, b),
-                'operator.gt(%s.created, %s.created)' % (b, a))
-        if r not in good and not re.match(r'^(?:operator\.\w+\()?[\w.]+(?: [<>]=? |, )[\w.]+\)?$', r):
-            raise AnalysisError('PGPSignature.__lt__: ordering %s not understood' % r)
-        rep.check(r in good, 'C16.5', 'PGPSignature.__lt__', 'orders by %s' % r,
-                  'signature collections are ordered by creation time (premise of the recency rule)', where=lt.where)
-    ins = prog.method('pgpy.types', 'SorteDeque', 'insort')
+class _K(object):
+    """An element of a time-sorted collection for checker-side evaluation: ordered by its key only, so that ties are told apart."""
+    def __init__(self, key, tag):
+        self.key, self.tag = key, tag
+
+    def __lt__(self, o):
+        return self.key < o.key
+
+    def __gt__(self, o):
+        return self.key > o.key
+
+    def __le__(self, o):
+        return self.key <= o.key
+
+    def __ge__(self, o):
+        return self.key >= o.key
+
+    def __repr__(self):
+        return '%s%s' % (self.key, self.tag)
+
+
+def check_insort_by_evaluation(rep, prog, ins):
+    """SorteDeque.insort is evaluated checker-side (MiniEval over the checker's own collections.deque / bisect - nothing of the
+    repository runs) on ascending collections of 0..4 elements with ties, for a new value below / between / equal to / above
+    the elements, unbounded (and bounded - full, one free place - if the program ever creates a bounded SorteDeque): the result must be what the reference insertion gives - the
+    item at the bisect_left position (ties: before its equals), and for a bounded deque the same element dropped.
+    Returns False when the body is outside the evaluator (the caller then reads the call shape)."""
+    import collections
+    import bisect as _bisect
+    me, item = ins.params[0], ins.params[1]
+
+    def reference(d, x):
+        k = _bisect.bisect_left(d, x)
+        d.rotate(-k)
+        d.appendleft(x)
+        d.rotate(k)
+
+    def outcome(fn, keys, newkey, maxlen):
+        d = collections.deque([_K(k, chr(97 + n)) for n, k in enumerate(keys)], maxlen)
+        x = _K(newkey, '*')
+        try:
+            fn(d, x)
+        except (IndexError, ValueError) as ex:
+            return 'raises %s' % type(ex).__name__
+        return [repr(e) for e in d]
+    # bounded deques drop elements on insertion; that only matters if the program ever makes a bounded SorteDeque
+    bounded = False
+    for fn_ in prog.all_functions():
+        for c in ast.walk(fn_.node):
+            if isinstance(c, ast.Call) and (dotted(c.func) or '').split('.')[-1] == 'SorteDeque' and (len(c.args) > 1 or any(k.arg in ('maxlen', None) for k in c.keywords)):
+                bounded = True
+    bad, n = None, 0
+    colls = [[], [2], [2, 2], [1, 3], [1, 2, 2, 3], [2, 2, 2], [1, 2, 3, 4]]
+    for keys in colls:
+        for newkey in sorted(set([0, 5] + keys + [k + 0.5 for k in keys])):
+            for maxlen in ((None, len(keys), len(keys) + 1) if bounded else (None,)):
+                if maxlen == 0:
+                    continue
+                want = outcome(reference, keys, newkey, maxlen)
+                try:
+                    got = outcome(lambda d, x: MiniEval().call(ins.node, [d, x]), keys, newkey, maxlen)
+                except (_NoEval, StopIteration, _Cont):
+                    return False
+                n += 1
+                if got != want and bad is None:
+                    bad = 'deque %s%s + %s -> %s, sorted insertion gives %s' % (keys, '' if maxlen is None else ' (maxlen %d)' % maxlen, newkey, got, want)
+    rep.check(bad is None, 'C16.5', 'SorteDeque.insort', 'sorted insertion on %d concrete cases' % n, 'insertion keeps the deque sorted ascending',
+              where=ins.where, expected='the item at its bisect_left position (ties: before its equals)', found=bad)
+    return True
+
+
+def _check_insort_by_shape(rep, prog, ins):
+    """Fallback when the body is outside the checker-side evaluator: the known insertion shapes, read from call events."""
     me, item = ins.params[0], ins.params[1]
     for s in Interp(prog, Scenario(inline=noinline)).run(ins):
         calls = [(c[0], [a.replace('--', '') for a in c[1]]) for c in s.calls]
@@ -285,6 +344,24 @@ def check_recency(rep, prog):
         if not ok and any(f.split('.')[-1] not in known for f, a in mut):
             raise AnalysisError('SorteDeque.insort: unrecognised sorted insertion %s' % mut)
         rep.check(ok, 'C16.5', 'SorteDeque.insort', 'bisect + rotate insert', 'insertion keeps the deque sorted ascending', where=ins.where, found=mut)
+
+
+# ------------------------------------------------------------------------------------------------ C16.5
+def check_recency(rep, prog):
+    # sorting premise: signatures compare by creation time; insertion bisects
+    lt = prog.method('pgpy.pgp', 'PGPSignature', '__lt__')
+    a, b = lt.params[0], lt.params[1]
+    for s in Interp(prog, Scenario(inline=noinline)).run(lt):
+        r = _strip(render(s.ret))
+        good = ('%s.created < %s.created' % (a, b), '%s.created > %s.created' % (b, a), 'operator.lt(%s.created, %s.created)' % (a, b),
+                'operator.gt(%s.created, %s.created)' % (b, a))
+        if r not in good and not re.match(r'^(?:operator\.\w+\()?[\w.]+(?: [<>]=? |, )[\w.]+\)?$', r):
+            raise AnalysisError('PGPSignature.__lt__: ordering %s not understood' % r)
+        rep.check(r in good, 'C16.5', 'PGPSignature.__lt__', 'orders by %s' % r,
+                  'signature collections are ordered by creation time (premise of the recency rule)', where=lt.where)
+    ins = prog.method('pgpy.types', 'SorteDeque', 'insort')
+    if not check_insort_by_evaluation(rep, prog, ins):
+        _check_insort_by_shape(rep, prog, ins)
     check_selfsig(rep, prog)
     check_get_key_flags(rep, prog)
     check_identity_selection(rep, prog)
@@ -601,6 +678,9 @@ class MiniEval(object):
                 return getattr(o, n.attr)
             if isinstance(o, list) and n.attr in ('pop', 'index', 'count', 'copy'):
                 return getattr(o, n.attr)
+            if type(o).__name__ == 'deque' and n.attr in ('rotate', 'appendleft', 'append', 'insert', 'pop', 'popleft', 'extend', 'extendleft', 'index',
+                                                          'count', 'clear', 'copy', 'reverse', 'remove', 'maxlen'):
+                return getattr(o, n.attr)
             raise _NoEval('attribute %s' % n.attr)
         if isinstance(n, ast.BoolOp):
             v = None
@@ -632,6 +712,8 @@ class MiniEval(object):
                         r = left is right
                     elif isinstance(op, ast.IsNot):
                         r = left is not right
+                    elif isinstance(op, (ast.Lt, ast.LtE, ast.Gt, ast.GtE)):
+                        r = {ast.Lt: lambda a, b: a < b, ast.LtE: lambda a, b: a <= b, ast.Gt: lambda a, b: a > b, ast.GtE: lambda a, b: a >= b}[type(op)](left, right)
                     else:
                         raise _NoEval('comparison')
                 except TypeError:
@@ -656,6 +738,14 @@ class MiniEval(object):
                 return base[lo:hi:st_]
             except TypeError:
                 raise _NoEval('slice')
+        if isinstance(n, ast.BinOp) and isinstance(n.op, (ast.Add, ast.Sub, ast.Mult, ast.FloorDiv, ast.Mod)):
+            a, b = self.ev(n.left, env), self.ev(n.right, env)
+            if isinstance(a, int) and isinstance(b, int) and not isinstance(a, bool) and not isinstance(b, bool):
+                try:
+                    return {ast.Add: a.__add__, ast.Sub: a.__sub__, ast.Mult: a.__mul__, ast.FloorDiv: a.__floordiv__, ast.Mod: a.__mod__}[type(n.op)](b)
+                except ZeroDivisionError:
+                    raise _NoEval('division')
+            raise _NoEval('arithmetic')
         if isinstance(n, ast.UnaryOp) and isinstance(n.op, ast.USub):
             v = self.ev(n.operand, env)
             if isinstance(v, int):
@@ -674,6 +764,12 @@ class MiniEval(object):
             table = {'any': any, 'all': all, 'list': list, 'tuple': tuple, 'set': set, 'frozenset': frozenset, 'len': len, 'bool': bool, 'str': str,
                      'iter': iter, 'reversed': lambda x: iter(list(reversed(list(x)))), 'filter': lambda f, x: iter([y for y in x if (f(y) if f is not None else y)]),
                      'map': lambda f, *xs: iter([f(*t) for t in zip(*xs)]), 'enumerate': lambda x: iter(list(enumerate(x))), 'zip': lambda *xs: iter(list(zip(*xs)))}
+            if fn in ('bisect.bisect_left', 'bisect.bisect_right', 'bisect.bisect', 'bisect.insort', 'bisect.insort_left', 'bisect.insort_right'):
+                import bisect as _bisect
+                try:
+                    return getattr(_bisect, fn.split('.')[1])(*args)
+                except TypeError as ex:
+                    raise _NoEval(str(ex))
             if fn == 'next' and 1 <= len(args) <= 2:
                 try:
                     return next(args[0])
